@@ -216,6 +216,15 @@ theorem specChildren_iso (iso : Iso D φ a a') {i : Id} (hi : D i) :
   intro f hf
   exact specNWT_iso iso _ (specIndFamilies_att iso (List.mem_filter.mp hf).1)
 
+theorem specAllEvents_iso (iso : Iso D φ a a') {n : Id} (hn : D n) :
+    specAllEvents a' (φ n) = (specAllEvents a n).map φ := by
+  unfold specAllEvents
+  rw [iso.kids n hn, List.filter_map]
+  congr 1
+  apply List.filter_congr
+  intro c hc
+  simp only [Function.comp, iso.tag c (iso.dkid _ _ hn hc)]
+
 /-- **Every view is invariant under renumbering.** -/
 theorem specView_iso (iso : Iso D φ a a') (v : View) (hs : ∀ n, v.subject = some n → D n) :
     specView a' (v.map φ) = (specView a v).map φ := by
@@ -239,6 +248,12 @@ theorem specView_iso (iso : Iso D φ a a') (v : View) (hs : ∀ n, v.subject = s
     simp only [View.map, specView, Obs.map, specWife_iso iso (hs f rfl), List.map_cons, List.map_nil]
   | famChildren f =>
     simp only [View.map, specView, Obs.map, specFamChildren, specNWT_iso iso _ (hs f rfl), List.map_map]; rfl
+  | names i =>
+    simp only [View.map, specView, Obs.map, specNWT_iso iso _ (hs i rfl), List.map_map]; rfl
+  | eventsOf i t =>
+    simp only [View.map, specView, Obs.map, specNWT_iso iso _ (hs i rfl), List.map_map]; rfl
+  | allEvents i =>
+    simp only [View.map, specView, Obs.map, specAllEvents_iso iso (hs i rfl), List.map_map]; rfl
 
 /-- a view that may be asked of `a` may be asked of `a'` -/
 theorem ok_iso (iso : Iso D φ a a') (v : View) (hs : ∀ n, v.subject = some n → D n)
@@ -262,5 +277,10 @@ theorem ok_iso (iso : Iso D φ a a') (v : View) (hs : ∀ n, v.subject = some n 
   | husband f => exact fam f (hs f rfl) hok
   | wife f => exact fam f (hs f rfl) hok
   | famChildren f => exact fam f (hs f rfl) hok
+  | names i => exact indi i (hs i rfl) hok
+  | eventsOf i t =>
+    simp only [View.ok, View.map, Bool.and_eq_true] at hok ⊢
+    exact ⟨indi i (hs i rfl) hok.1, hok.2⟩
+  | allEvents i => exact indi i (hs i rfl) hok
 
 end Gedcom.Cache
